@@ -23,10 +23,12 @@ RULE = ("(a) DiffractionPatterns built directly: sizes 1-33 per axis (odd/even/r
         "pattern = unit-total random non-negative or a single bright pixel at a random position (corners, Nyquist row included); "
         "(b) 1-4 tilted plane waves through Waves.diffraction_patterns (max_angle full/float, parity same/odd/even, both layouts); "
         "(c) random band-limited real periodic fields (1-6 Fourier components, Nyquist excluded) on grids 2-40 with anisotropic "
-        "sampling, complex64/complex128, ensembles, eager/lazy; non-trivial = pattern with >=2 pixels per axis and a non-central "
+        "sampling, complex64/complex128, ensembles, eager/lazy; lazy arrays are chunked along ensemble axes and along the base axes "
+        "(x only, y only, both; unequal chunks); 30-35 % of the cases are histories: the same input again in the same process with "
+        "exactly one parameter changed (energy, layout, sampling/extent, data, chunking); non-trivial = pattern with >=2 pixels per axis and a non-central "
         "centre of mass, or a field with a non-zero component; distinct = distinct case signature")
 CLAUSES = ["com-frequency", "com-angle", "com-single-pixel", "com-unshifted", "com-pipeline", "com-result-type",
-           "gradient-integral"]
+           "gradient-integral", "gradient-integral-base-chunked", "history"]
 QUICK = dict(n=600, time=40)
 THOROUGH = dict(n=20000, time=240, shards=16)
 ASSUMPTIONS = ["centre of mass is judged on unit-total patterns only: for other totals abTEM returns the first moment, not divided "
@@ -45,11 +47,28 @@ def gen(rng, tier):
         corner = rng.random() < 0.3
         pos = [int(rng.choice([0, nx - 1, nx // 2])) if corner else int(rng.integers(0, nx)),
                int(rng.choice([0, ny - 1, ny // 2])) if corner else int(rng.integers(0, ny))]
-        return {"kind": "direct", "gpts": [nx, ny], "sampling": [float(rng.uniform(0.005, 0.3)), float(rng.uniform(0.005, 0.3))],
+        lazy = bool(rng.random() < 0.3)
+        case = {"kind": "direct", "gpts": [nx, ny], "sampling": [float(rng.uniform(0.005, 0.3)), float(rng.uniform(0.005, 0.3))],
                 "energy": float(rng.choice([30e3, 80e3, 100e3, 200e3, 300e3, float(10 ** rng.uniform(4, 6))])),
                 "fftshift": bool(rng.random() < 0.5), "axes": spec, "chunks": [int(rng.integers(1, 4)) for _ in spec],
-                "lazy": bool(rng.random() < 0.25), "dtype": str(rng.choice(["float32", "float64"])), "pattern": pattern,
+                "lazy": lazy, "base_chunks": (L.rand_base_chunks(rng, (nx, ny)) if lazy else None),
+                "dtype": str(rng.choice(["float32", "float64"])), "pattern": pattern,
                 "pos": pos, "seed": int(rng.integers(0, 2 ** 31))}
+        if rng.random() < 0.35:
+            # history: the same pattern again with exactly one parameter changed (state kept between calls must not leak)
+            then = []
+            for _ in range(int(rng.integers(1, 3))):
+                k = int(rng.integers(0, 4))
+                if k == 0:
+                    then.append({"energy": float(rng.choice([20e3, 60e3, 150e3, 250e3, 1e6]))})
+                elif k == 1:
+                    then.append({"fftshift": not case["fftshift"]})
+                elif k == 2:
+                    then.append({"sampling": [float(rng.uniform(0.005, 0.3)), float(rng.uniform(0.005, 0.3))]})
+                else:
+                    then.append({"seed": int(rng.integers(0, 2 ** 31))})
+            case["then"] = then
+        return case
     if u < 0.75:
         nx = int(rng.integers(8, 41))
         ny = nx if rng.random() < 0.3 else int(rng.integers(8, 41))
@@ -66,11 +85,17 @@ def gen(rng, tier):
         # real-space sampling with an anisotropy of at most 2 (the antialias cutoff then keeps >= 1 pixel per axis)
         sx = float(rng.uniform(0.1, 0.8))
         sy = sx if rng.random() < 0.3 else float(sx * rng.uniform(0.5, 2.0))
-        return {"kind": "pipeline", "gpts": [nx, ny], "extent": [nx * sx, ny * sy],
+        case = {"kind": "pipeline", "gpts": [nx, ny], "extent": [nx * sx, ny * sy],
                 "energy": float(rng.choice([60e3, 100e3, 200e3, 300e3])), "comps": uniq,
                 "fftshift": bool(rng.random() < 0.5), "max_angle": str(rng.choice(["full", "float", "cutoff"])),
                 "parity": str(rng.choice(["same", "odd", "even"])), "lazy": bool(rng.random() < 0.25),
                 "precision": str(rng.choice(["float32", "float64"]))}
+        if rng.random() < 0.35:
+            k = int(rng.integers(0, 3))
+            case["then"] = [{"energy": float(rng.choice([30e3, 80e3, 150e3, 250e3]))} if k == 0 else
+                            {"fftshift": not case["fftshift"]} if k == 1 else
+                            {"extent": [case["extent"][0] * float(rng.uniform(0.6, 1.6)), case["extent"][1] * float(rng.uniform(0.6, 1.6))]}]
+        return case
     nx = int(rng.choice([2, 3, 4, 5, int(rng.integers(2, 41)), int(rng.integers(2, 41))]))
     ny = nx if rng.random() < 0.3 else int(rng.choice([2, 3, 4, 5, int(rng.integers(2, 41)), int(rng.integers(2, 41))]))
     hx, hy = (nx - 1) // 2, (ny - 1) // 2
@@ -79,9 +104,17 @@ def gen(rng, tier):
         h, k = int(rng.integers(-hx, hx + 1)), int(rng.integers(-hy, hy + 1))
         comps.append([h, k, float(rng.uniform(0.1, 2.0)), float(rng.uniform(0, 2 * np.pi))])
     spec = L.rand_axes(rng, max_axes=2, max_len=3)
-    return {"kind": "gradient", "gpts": [nx, ny], "sampling": [float(rng.uniform(0.02, 1.5)), float(rng.uniform(0.02, 1.5))],
-            "comps": comps, "axes": spec, "chunks": [int(rng.integers(1, 4)) for _ in spec], "lazy": bool(rng.random() < 0.3),
+    lazy = bool(rng.random() < 0.45)
+    case = {"kind": "gradient", "gpts": [nx, ny], "sampling": [float(rng.uniform(0.02, 1.5)), float(rng.uniform(0.02, 1.5))],
+            "comps": comps, "axes": spec, "chunks": [int(rng.integers(1, 4)) for _ in spec], "lazy": lazy,
+            "base_chunks": (L.rand_base_chunks(rng, (nx, ny), p_split=0.75) if lazy else None),
             "dtype": str(rng.choice(["complex64", "complex128"])), "seed": int(rng.integers(0, 2 ** 31))}
+    if rng.random() < 0.3:
+        k = int(rng.integers(0, 3))
+        case["then"] = [{"sampling": [float(rng.uniform(0.02, 1.5)), float(rng.uniform(0.02, 1.5))]} if k == 0 else
+                        {"lazy": True, "base_chunks": L.rand_base_chunks(rng, (nx, ny), p_split=1.0)} if k == 1 else
+                        {"seed": int(rng.integers(0, 2 ** 31)), "lazy": not lazy, "base_chunks": None}]
+    return case
 
 
 # ----------------------------------------------------------------------------------- checks
@@ -116,7 +149,9 @@ def check_direct(ctx, case):
     sx, sy = case["sampling"]
     fx = L.freq_index(nx, shifted) * sx
     fy = L.freq_index(ny, shifted) * sy
-    arr = L.chunk_array(I, case["chunks"]) if case["lazy"] else I.copy()
+    arr = L.chunk_array(I, case["chunks"], base_chunks=case.get("base_chunks")) if case["lazy"] else I.copy()
+    if case["lazy"] and case.get("base_chunks"):
+        ctx.monitor("lazy-base-axes-chunked")
     dp = DiffractionPatterns(arr, sampling=(sx, sy), fftshift=shifted, metadata={"energy": case["energy"]},
                              ensemble_axes_metadata=L.make_axes(spec))
     lam = L.wavelength(case["energy"])
@@ -211,7 +246,10 @@ def check_gradient(ctx, case):
         gx += -scale * amp * 2 * np.pi * h / Lx * np.sin(arg)
         gy += -scale * amp * 2 * np.pi * k / Ly * np.sin(arg)
     g = (gx + 1j * gy).astype(case["dtype"])
-    arr = L.chunk_array(g, case["chunks"]) if case["lazy"] else g.copy()
+    arr = L.chunk_array(g, case["chunks"], base_chunks=case.get("base_chunks")) if case["lazy"] else g.copy()
+    split = case["lazy"] and bool(case.get("base_chunks"))
+    if split:
+        ctx.monitor("lazy-base-axes-chunked")
     im = Images(arr, sampling=(dx, dy), ensemble_axes_metadata=L.make_axes(spec))
     out = im.integrate_gradient()
     T = L.as_numpy(out).astype(np.float64)
@@ -220,18 +258,24 @@ def check_gradient(ctx, case):
     got = T - T.mean((-2, -1), keepdims=True)
     want = phi - phi.mean((-2, -1), keepdims=True)
     rtol = 2e-5 if case["dtype"] == "complex64" else 1e-10
-    ctx.close(got, want, "gradient-integral", rtol=rtol, atol=1e-30, scale=max(float(np.abs(phi).max()), 1e-12),
-              gpts=[nx, ny], dtype=case["dtype"])
+    for clause in ["gradient-integral"] + (["gradient-integral-base-chunked"] if split else []):
+        ctx.close(got, want, clause, rtol=rtol, atol=1e-30, scale=max(float(np.abs(phi).max()), 1e-12),
+                  gpts=[nx, ny], dtype=case["dtype"], lazy=case["lazy"], base_chunks=case.get("base_chunks"))
     ctx.nontrivial(any((c[0], c[1]) != (0, 0) for c in case["comps"]))
 
 
 def check(ctx, case):
-    if case["kind"] == "direct":
-        check_direct(ctx, case)
-    elif case["kind"] == "pipeline":
-        check_pipeline(ctx, case)
-    else:
-        check_gradient(ctx, case)
+    steps = L.steps_of(case)
+    for i, step in enumerate(steps):
+        if i:
+            ctx.monitor("history-steps")
+            ctx.clauses["history"] += 1      # the step itself is judged by the clauses of its kind
+        if step["kind"] == "direct":
+            check_direct(ctx, step)
+        elif step["kind"] == "pipeline":
+            check_pipeline(ctx, step)
+        else:
+            check_gradient(ctx, step)
 
 
 def fixed_cases(tier):
@@ -240,6 +284,13 @@ def fixed_cases(tier):
                 "fftshift": False, "max_angle": "full", "parity": "same", "lazy": False, "precision": "float32"})
     out.append({"kind": "gradient", "gpts": [9, 8], "sampling": [0.3, 0.2], "comps": [[1, 0, 1.0, 0.0], [0, 2, 0.5, 1.0], [-3, 3, 0.2, 2.0]],
                 "axes": [], "chunks": [], "lazy": False, "dtype": "complex128", "seed": 3})
+    # lazy complex images split along x only / y only / both base axes, and along an ensemble axis
+    for bc in ([12, 0], [0, 7], [5, 9]):
+        out.append({"kind": "gradient", "gpts": [24, 20], "sampling": [0.3, 0.45], "comps": [[1, 0, 1.0, 0.3], [2, -3, 0.4, 1.0]],
+                    "axes": [{"k": "O", "n": 3}], "chunks": [2], "lazy": True, "base_chunks": bc, "dtype": "complex64", "seed": 4})
+    out.append({"kind": "direct", "gpts": [9, 8], "sampling": [0.05, 0.07], "energy": 100e3, "fftshift": False, "axes": [{"k": "S", "n": 3}],
+                "chunks": [2], "lazy": True, "base_chunks": [4, 3], "dtype": "float32", "pattern": "random", "pos": [0, 0], "seed": 8,
+                "then": [{"energy": 300e3}, {"fftshift": True}]})
     # single bright pixel at every position of a small odd x even pattern, both layouts (both units are judged per case)
     for (nx, ny) in ((5, 4), (2, 3)):
         for sh in (False, True):
